@@ -292,6 +292,7 @@ class World:
         self.linemap = []        # per emitted line: dict(fn=<id>|None, label=<str>|None, part=sig|contract|body|tmpl)
         self.functions = []      # dict per extracted fn
         self.dropped = []
+        self.lemmas = []         # dict(id, tags): template lemmas over the contracts, counted as obligations
         self.canaries = []       # (name, fn id, text)
         self.cur_impl = None     # (indent, header text) of the template impl block being emitted
 
@@ -379,6 +380,10 @@ class World:
                         i += 1
                     i += 1
             elif s == "//@endif":
+                i += 1
+            elif s.startswith("//@lemma "):
+                d = _parse_kv(s[len("//@lemma "):])
+                self.lemmas.append(dict(id=d["id"], tags=[t for t in d.get("tags", "").split(",") if t]))
                 i += 1
             elif s == "//@canaries":
                 self.emit_canaries(indent=re.match(r"\s*", ln).group(0))
@@ -629,7 +634,7 @@ def build(tmpl_path, repo, out_path, canary_mode=False, flags=()):
     with open(out_path, "w") as f:
         f.write(text)
     meta = dict(template=tmpl_path, out=out_path, functions=w.functions, linemap=w.linemap,
-                canaries=[dict(name=n, fn=f) for (n, f, _) in w.canaries])
+                canaries=[dict(name=n, fn=f) for (n, f, _) in w.canaries], lemmas=w.lemmas)
     with open(out_path + ".map.json", "w") as f:
         json.dump(meta, f)
     return meta
